@@ -52,6 +52,11 @@ PROJECTION_RULES = [
     "`trait Io { type Error: embedded_io_async::Error; fn read; fn write; fn flush }`",
     "drive.rs: `embassy_time::with_deadline` -> `crate::verif_common::with_deadline` "
     "(would-block ghost => clock := deadline, Err(TimeoutError); else Ok(value))",
+    "handshake.rs: `ack.properties.iter()` -> `crate::verif_common::stub_props_iter(&ack.properties)` (iterates the ghost "
+    "slice CK_PROPS; the lazily decoding iterator is an `impl Iterator` and cannot be stubbed; it is checked by c20_lookup_* / c04_prop_*)",
+    "handshake.rs: `if crate::verif_common::cut_after_connect() { return Err(Error::Disconnected); }` inserted after the CONNECT "
+    "write block (concrete ghost flag: lets a harness end the function there, because CBMC otherwise executes the whole tail on "
+    "infeasible paths)",
 ]
 
 SYNC_IO = '''pub trait Io {
@@ -163,6 +168,18 @@ def project(dest):
             if c != 1:
                 raise OverlayError("projection: with_deadline import not found in drive.rs")
         open(p, "w").write(t)
+    # handshake.rs: two extra mechanical edits (see PROJECTION_RULES): a cut point after the CONNECT has
+    # been written, and the CONNACK property loop iterating a ghost slice instead of the lazily
+    # decoding iterator (which cannot be stubbed: `impl Iterator`)
+    p = os.path.join(dest, "src/mqtt_client/session/handshake.rs")
+    t = open(p).read()
+    t, a = re.subn(r"ack\.properties\.iter\(\)", "crate::verif_common::stub_props_iter(&ack.properties)", t)
+    anchor = "        self.runtime.next_ping = None;\n        self.runtime.ping_timeout = None;\n\n        if let Err(err) = fill_packet_reader("
+    b = t.count(anchor)
+    t = t.replace(anchor, "        if crate::verif_common::cut_after_connect() {\n            return Err(Error::Disconnected);\n        }\n" + anchor)
+    if a != 1 or b != 1:
+        raise OverlayError("projection: handshake.rs anchors not found (props loop %d, cut point %d)" % (a, b))
+    open(p, "w").write(t)
     p = os.path.join(dest, "src/mqtt_client/mod.rs")
     t = open(p).read()
     t, a = re.subn(r"pub trait Io: Read \+ Write \+ ErrorType \{\}\n", SYNC_IO, t)
